@@ -44,5 +44,10 @@ def run(tier, seed, faults=()):
 
 
 def replay(path, tier, seed):
+    import json
+    obj = json.load(open(path))
+    if obj.get("spec") == "GenReportView":
+        from ..adapters.reportview import make_replay
+        return cm.replay_file(Report("C17", tier, seed, "model_checking"), path, make_replay(obj.get("source", "xy").split(":")[0]), "GenReportView")
     from ..adapters.format import replay_walk
     return cm.replay_file(Report("C17", tier, seed, "model_checking"), path, replay_walk, "GenFormat")
